@@ -28,10 +28,17 @@ def _index_key(call: ast.Call) -> bool:
     return False
 
 
+_KEY_FUNCS = {}   # name of a local / module function used as sort key -> its value term with ('p', param)
+
+
 def _is_index_key(k) -> bool:
-    """key term projects element 0 of the pair: lambda p: p[0] / operator.itemgetter(0)"""
+    """key term projects element 0 of the pair: lambda p: p[0] / operator.itemgetter(0) / a named function doing that"""
     if k[0] == 'lam' and len(k[1]) == 1 and k[2] == ('index', k[1][0], ('lit', 0)):
         return True
+    if k[0] in ('closure', 'global') and isinstance(k[1], str):
+        ft = _KEY_FUNCS.get(k[1].split('.')[-1])
+        if ft is not None and ft[0] == 'index' and ft[1][0] == 'p' and ft[2] == ('lit', 0):
+            return True
     if k[0] == 'call' and k[1].split('.')[-1] == 'itemgetter' and k[2] == (('lit', 0),):
         return True
     return False
@@ -146,6 +153,13 @@ def check_parallel_map(A, R: Report, f):
         R.ok('R17.1', name, 'results are not collected in completion order', where=where(f))
         return
     sort_param = 'sort' if 'sort' in f.params else None
+    _KEY_FUNCS.clear()
+    for g in list(f.nested.values()) + [h for h in A.prog.functions.values() if h.parent is None and h.cls is None and h.module is f.module]:
+        if len(g.params) == 1 and not isinstance(g.node, ast.Lambda):
+            try:
+                _KEY_FUNCS[g.name] = A.sym.func_term(g, None)
+            except Exception:
+                pass
     problems, n_src = term_order_problems(pooled_t, sort_param)
     if n_src == 0:
         # the term engine lost the flow (uninterpreted construct): fall back to the syntactic taint analysis
